@@ -236,8 +236,56 @@ class Unord:
             o = f.origin(s.args[0]) if s.args else ("unknown",)
             # receiver: &mut [T] from deref_mut(&mut vec)
             base = self._base_local(f, s.args[0])
-            if base in aliases and f.dominates(c.bb, s.bb):
+            if base in aliases and f.dominates(c.bb, s.bb) and self._total_order(f, s):
                 return True
+        return False
+
+    # keys that identify an element although they are only a part of it (one line of reason each)
+    UNIQUE_KEYS = {
+        "(tuple).0": "entry (key, value) of a map iteration: keys are unique",
+        "tauri_typegen::models::StructInfo.name": "values of the discovered-struct map, which is keyed by this name",
+    }
+
+    def _total_order(self, f, s):
+        """does this sort call order the elements totally (so that the result does not depend on the input order)?
+        sort()/sort_unstable() compare whole elements; sort_by/sort_by_key are accepted only when the comparator compares, or the key
+        is, a projection listed in UNIQUE_KEYS — a key such as file_name() ties on distinct elements and leaves them in hash order"""
+        if s.name in ("sort", "sort_unstable"):
+            return True
+        cl = None
+        for a in s.args:
+            o = f.origin(a)
+            if o[0] == "aggr" and o[1].get("agg") == "closure":
+                cl = o[1]["closure"]
+            k = op_const(a)
+            if k and "closure" in k:
+                cl = k["closure"]
+        g = self.P.fns.get(cl) if cl else None
+        if g is None:
+            return False
+
+        def last_field(o):
+            while o[0] == "proj":
+                for name in reversed(o[2]):
+                    if name != "deref":
+                        return name
+                o = o[1]
+            return None
+        if s.name in ("sort_by", "sort_unstable_by"):
+            cmps = [c for c in g.calls if c.name in ("cmp", "partial_cmp") and c.bb in g.reach_blocks]
+            if len(cmps) != 1 or len(cmps[0].args) != 2:
+                return False
+            keys = [last_field(g.origin(a)) for a in cmps[0].args]
+            return keys[0] is not None and keys[0] == keys[1] and keys[0] in self.UNIQUE_KEYS
+        if s.name in ("sort_by_key", "sort_unstable_by_key", "sort_by_cached_key"):
+            ds = [d for d in g.defs.get(0, []) if d[0] == "stmt" and d[1] in g.reach_blocks]
+            if len(ds) == 1 and ds[0][3]["k"] in ("use", "ref", "copy_for_deref"):
+                src = ds[0][3].get("op") or ds[0][3].get("place")
+                return last_field(g.origin(src)) in self.UNIQUE_KEYS
+            if any(d[0] == "call" and d[2].name in ("clone", "to_string", "to_owned") for d in g.defs.get(0, [])):
+                d = [d for d in g.defs.get(0, []) if d[0] == "call"][0]
+                return last_field(g.origin(d[2].args[0])) in self.UNIQUE_KEYS
+            return False
         return False
 
     def _base_local(self, f, op, depth=8):
